@@ -228,6 +228,11 @@ func (g *tagger) metadata(w *world) banktypes.Metadata {
 	} else {
 		g.tag("meta.base=" + []string{"", "", "", "noSupply", "evmDenom", "aggregateDenom", "len128"}[bi])
 	}
+	// a content that repeats metadata already in the bank store (set by an earlier RegisterCoin/AddCoin of the sequence, by
+	// another proposal that executed between submission and execution, or by genesis) and differs from it in one detail
+	if len(w.storedMeta) > 0 && chance(g.t, "meta.fromStored", 40) {
+		return g.storedVariant(w)
+	}
 	base := bases[bi]
 	name, symbol := "Coin "+base, "C"
 	if strings.HasPrefix(base, "ibc/") {
@@ -282,6 +287,73 @@ func (g *tagger) metadata(w *world) banktypes.Metadata {
 	if g.edge("meta.display", 5) {
 		m.Display = []string{"", "X", "1abc"}[g.pick("meta.display.edge", 3)]
 		g.tag("meta.display=invalid")
+	}
+	return m
+}
+
+// cloneMetadata deep-copies a bank metadata (denom units are pointers).
+func cloneMetadata(m banktypes.Metadata) banktypes.Metadata {
+	out := m
+	out.DenomUnits = nil
+	for _, u := range m.DenomUnits {
+		if u == nil {
+			out.DenomUnits = append(out.DenomUnits, nil)
+			continue
+		}
+		c := *u
+		c.Aliases = append([]string(nil), u.Aliases...)
+		out.DenomUnits = append(out.DenomUnits, &c)
+	}
+	return out
+}
+
+// storedVariant copies one of the metadata found in the bank store and changes at most one detail of it.
+func (g *tagger) storedVariant(w *world) banktypes.Metadata {
+	m := cloneMetadata(w.storedMeta[rapid.IntRange(0, len(w.storedMeta)-1).Draw(g.t, "meta.stored")])
+	g.note("meta.base=stored")
+	last := len(m.DenomUnits) - 1
+	switch g.pick("meta.stored.change", 9) {
+	case 0:
+		g.tag("meta.stored=identical")
+	case 1:
+		if last >= 0 && m.DenomUnits[last] != nil {
+			m.DenomUnits[last].Aliases = nil
+		}
+		g.tag("meta.stored=noAliases")
+	case 2:
+		if last >= 0 && m.DenomUnits[last] != nil {
+			m.DenomUnits[last].Aliases = append(m.DenomUnits[last].Aliases, "extra"+m.Display)
+		}
+		g.tag("meta.stored=oneMoreAlias")
+	case 3:
+		if last >= 0 && m.DenomUnits[last] != nil && len(m.DenomUnits[last].Aliases) > 0 {
+			m.DenomUnits[last].Aliases = m.DenomUnits[last].Aliases[:len(m.DenomUnits[last].Aliases)-1]
+		}
+		g.tag("meta.stored=oneAliasLess")
+	case 4:
+		if last >= 0 && m.DenomUnits[0] != nil {
+			m.DenomUnits[0].Aliases = append(m.DenomUnits[0].Aliases, "base"+m.Display)
+		}
+		g.tag("meta.stored=baseAlias")
+	case 5:
+		if last >= 1 {
+			m.DenomUnits = m.DenomUnits[:last]
+			if m.DenomUnits[last-1] != nil {
+				m.Display = m.DenomUnits[last-1].Denom
+			}
+		}
+		g.tag("meta.stored=oneUnitLess")
+	case 6:
+		m.DenomUnits = append(m.DenomUnits, &banktypes.DenomUnit{Denom: "giga" + m.Display, Exponent: 1<<32 - 1})
+		g.tag("meta.stored=oneUnitMore")
+	case 7:
+		if last >= 0 && m.DenomUnits[last] != nil {
+			m.DenomUnits[last].Exponent++
+		}
+		g.tag("meta.stored=exponent+1")
+	default:
+		m.Name = "renamed " + m.Name
+		g.tag("meta.stored=renamed")
 	}
 	return m
 }
